@@ -203,7 +203,7 @@ theorem i32_rotl_sound : Sound2 CVal.i32 CVal.i32 CVal.i32 (wBin .rotl) f_i32_ro
   unfold f_i32_rotl
   c03_sound
 
-example : Guard.rotl32 0x3#32 0x2#32 := by decide
+example : Guard.rotl32 0x1#32 0x4#32 := by decide
 
 /-- `i32.rotr`: I32_ROTR applied to a signed int32_t: arithmetic right shift and undefined left shift -/
 theorem i32_rotr_partial : Partial2 CVal.i32 CVal.i32 CVal.i32 Guard.rotr32 (wBin .rotr) f_i32_rotr := by
@@ -220,7 +220,7 @@ theorem i32_rotr_sound : Sound2 CVal.i32 CVal.i32 CVal.i32 (wBin .rotr) f_i32_ro
   unfold f_i32_rotr
   c03_sound
 
-example : Guard.rotr32 0x3#32 0x2#32 := by decide
+example : Guard.rotr32 0x1#32 0x4#32 := by decide
 
 theorem i32_eq_ok : Full2 CVal.i32 CVal.i32 CVal.i32 (wRel .eq) f_i32_eq := by
   unfold f_i32_eq
@@ -453,7 +453,7 @@ theorem i64_rotl_sound : Sound2 CVal.i64 CVal.i64 CVal.i64 (wBin .rotl) f_i64_ro
   unfold f_i64_rotl
   c03_sound
 
-example : Guard.rotl64 0x3#64 0x2#64 := by decide
+example : Guard.rotl64 0x1#64 0x4#64 := by decide
 
 /-- `i64.rotr`: I64_ROTR applied to a signed int64_t -/
 theorem i64_rotr_partial : Partial2 CVal.i64 CVal.i64 CVal.i64 Guard.rotr64 (wBin .rotr) f_i64_rotr := by
@@ -470,7 +470,7 @@ theorem i64_rotr_sound : Sound2 CVal.i64 CVal.i64 CVal.i64 (wBin .rotr) f_i64_ro
   unfold f_i64_rotr
   c03_sound
 
-example : Guard.rotr64 0x3#64 0x2#64 := by decide
+example : Guard.rotr64 0x1#64 0x4#64 := by decide
 
 theorem i64_eq_ok : Full2 CVal.i64 CVal.i64 CVal.i32 (wRel .eq) f_i64_eq := by
   unfold f_i64_eq
@@ -582,10 +582,6 @@ theorem i64_const_2_ok : Full0 CVal.i64 (wConst 18446744073709551615#64) f_i64_c
 
 theorem i64_const_3_ok : Full0 CVal.i64 (wConst 9223372036854775807#64) f_i64_const_3 := by
   unfold f_i64_const_3
-  c03_tac
-
-theorem i64_const_4_ok : Full0 CVal.i64 (wConst 9223372036854775808#64) f_i64_const_4 := by
-  unfold f_i64_const_4
   c03_tac
 
 theorem i64_const_5_ok : Full0 CVal.i64 (wConst 4294967296#64) f_i64_const_5 := by
